@@ -15,7 +15,7 @@ from fractions import Fraction
 
 import numpy as np
 
-from ..common import q, qlist, fr, frlist, call_impl, VERIF
+from ..common import q, qlist, fr, frlist, call_impl, VERIF, vary_layout
 
 FINDING_KEY = "strain-voigt-shear-doubled"
 WITNESS = os.path.join(VERIF, "corpus", "C12", "strain_voigt_shear.json")
@@ -157,9 +157,9 @@ def _mk(kind, g, inp, mat=None, voigt=True, alpha=None, EM=None):
     elif kind == "K":
         m = pm.AssembleStiffness(s, domain=dom, e_modulus=float(mat["E"]), poisson_ratio=float(mat["nu"]), plane=mat["plane"])
     elif kind == "elemop":
-        m = pm.ElementOperation(s, domain=dom, element_matrix=np.array(EM, dtype=float))
+        m = pm.ElementOperation(s, domain=dom, element_matrix=vary_layout(np.array(EM, dtype=float), (np.shape(EM), float(np.abs(np.asarray(EM, dtype=float)).sum()))))
     elif kind == "nodalop":
-        m = pm.NodalOperation(s, domain=dom, element_matrix=np.array(EM, dtype=float))
+        m = pm.NodalOperation(s, domain=dom, element_matrix=vary_layout(np.array(EM, dtype=float), (np.shape(EM), float(np.abs(np.asarray(EM, dtype=float)).sum()))))
     else:
         raise ValueError(kind)
     return m, s, dom
